@@ -280,7 +280,7 @@ func init() {
 		fields := byProp[p]
 		sort.Strings(fields)
 		addRule(p, &core.Rule{ID: p + ".entrypoint-args", Floor: 3, Run: entrypointArgs,
-			Doc: "rootfs/start.sh, the entrypoint of the image: the line that executes /haproxy-ingress-controller passes the positional parameters as \"$@\" and contains no expansion outside double quotes. The options this property depends on are read from that command line; an unquoted $@ or an appended unquoted variable is split and glob-expanded by the shell first (`--disable-config-keywords *` becomes the file names of the working directory, a value with a blank becomes two arguments). Decided on the text of the script (quote state per character of that line); the script is not executed."})
+			Doc: "rootfs/start.sh, the entrypoint of the image: the line that executes /haproxy-ingress-controller passes the positional parameters as \"$@\" and contains no expansion outside double quotes. The options this property depends on are read from that command line; an unquoted $@ or an appended unquoted variable is split and glob-expanded by the shell first (`--disable-config-keywords *` becomes the file names of the working directory, a value with a blank becomes two arguments). The two Dockerfiles start the script in exec form with /start.sh as the last element (the shell form drops the arguments of the container). Decided on the text of the script (quote state per character of that line) and of the Dockerfiles; nothing is executed."})
 		addRule(p, &core.Rule{ID: p + ".options-wiring", Floor: len(fields), Run: func(c *core.Ctx) { optionsWiring(c, p, fields) },
 			Doc: "Option wiring: the fields of Config / InstanceOptions / ConverterOptions / DynamicConfig this property depends on (" + strings.Join(shortFields(fields), ", ") + ") are filled, by Services.setup, by the legacy configController and (Config, from the command line) by CreateWithConfig, with the reviewed expressions (rules/options_gen.go: configuration value, rendered name-independently), and the objects that must be shared between the cache and the converters (tracker, permission bits, cache) are one object. Every unit test builds its own options, so a field filled from the wrong configuration value, from a constant or not at all is invisible to the suite. Only the listed fields are compared: the two functions wire every service of the process."})
 	}
@@ -323,6 +323,26 @@ func entrypointArgs(c *core.Ctx) {
 		c.Check(strings.Contains(l, `"$@"`), "the controller receives the positional parameters as \"$@\"", where, l, "the line that executes the controller does not pass \"$@\"")
 	}
 	c.Check(n >= 1, "entrypoint executes the controller", rel, fmt.Sprintf("%d line(s)", n), "no line of the entrypoint executes /haproxy-ingress-controller")
+	// the images start that script in exec form: the shell form (`ENTRYPOINT /start.sh`) drops the arguments of the container
+	for _, df := range []string{"rootfs/Dockerfile", "builder/Dockerfile"} {
+		b, err := c.ReadRepoFile(df)
+		if err != nil {
+			c.MissingAnchor(df + ": " + err.Error())
+			continue
+		}
+		found := false
+		for i, line := range strings.Split(string(b), "\n") {
+			l := strings.TrimSpace(line)
+			if !strings.HasPrefix(l, "ENTRYPOINT") {
+				continue
+			}
+			found = true
+			arg := strings.TrimSpace(strings.TrimPrefix(l, "ENTRYPOINT"))
+			c.Check(strings.HasPrefix(arg, "[") && strings.HasSuffix(arg, `"/start.sh"]`), "the image starts /start.sh in exec form, as the last element", fmt.Sprintf("%s:%d", df, i+1), arg,
+				"ENTRYPOINT is `"+clip(arg, 80)+"`: in shell form, or with anything after /start.sh, the arguments of the container do not reach the script as its positional parameters")
+		}
+		c.Check(found, "image entrypoint declared", df, "ENTRYPOINT present", "no ENTRYPOINT line")
+	}
 }
 
 func shortFields(fs []string) []string {
